@@ -757,6 +757,15 @@ impl<'a> ClientAssociationOptions<'a> {
             crate::association::MissingAbstractSyntaxSnafu
         );
 
+        // presentation context identifiers are odd integers between 1 and 255,
+        // so no more than 128 can be proposed in a single association
+        ensure!(
+            presentation_contexts.len() <= 128,
+            crate::association::TooManyPresentationContextsSnafu {
+                count: presentation_contexts.len(),
+            }
+        );
+
         // choose called AE title
         let called_ae_title: &str = match (&called_ae_title, ae_title) {
             (Some(aec), Some(aet)) => {
